@@ -44,6 +44,15 @@ type symStr struct {
 	b []value // byte | *Term(w=8) | opaque
 }
 
+// absBytes is a []byte of symbolic length whose cells are not modelled (only sizes,
+// re-slicing and identity exist); any cell access abandons the path.
+type absBytes struct {
+	id  int
+	off *Term // 64-bit offset into buffer id
+	n   *Term // 64-bit length
+	c   *Term // 64-bit capacity
+}
+
 type iter interface {
 	next(fr *frame) tuple
 }
@@ -178,6 +187,8 @@ func writeValue(buf *bytes.Buffer, v value, depth int) {
 		buf.WriteString("<" + v.String() + ">")
 	case opaque:
 		buf.WriteString("<?>")
+	case *absBytes:
+		fmt.Fprintf(buf, "<abstract bytes #%d off=%s len=%s>", v.id, v.off, v.n)
 	case *symStr:
 		buf.WriteString("sym\"")
 		for _, c := range v.b {
